@@ -782,7 +782,7 @@ func run(cfg *Config, opt core.Options, res *core.Result) *sim {
 	s.afterState(s.nodes[0], s.nodes[0].states[w.genesis.root], "genesis")
 	partitioned := -1
 	partitionUntil := uint64(0)
-	for slot := uint64(1); slot <= uint64(cfg.Slots) && !s.stop; slot++ {
+	for slot := cfg.baseSlot() + 1; slot <= cfg.baseSlot()+uint64(cfg.Slots) && !s.stop; slot++ {
 		s.step = int(slot)
 		s.curSlot = slot
 		res.Stat("events", 1)
